@@ -88,7 +88,7 @@ def build_obj(spec, rng_seed):
 
 
 def gen_matrix(rng, crit_pool):
-    style = rng.choice(["positive", "positive", "mixed", "zeros", "nan", "allmin", "reordered", "narrow"])
+    style = rng.choice(["positive", "positive", "mixed", "zeros", "nan", "allmin", "reordered", "narrow", "inf"])
     m = rng.randint(1, 4)
     n = rng.randint(2, 6)
     crits = crit_pool[:m]
@@ -109,6 +109,10 @@ def gen_matrix(rng, crit_pool):
     nan = []
     if style == "nan":
         nan = [[rng.randrange(n), rng.randrange(m)]]
+    if style == "inf":
+        # an infinite cell (stored like a missing one; JSON has no infinity): most methods refuse such a matrix, and
+        # must refuse it every time
+        nan = [[rng.randrange(n), rng.randrange(m), "inf"]]
     out = {"matrix": mtx, "objectives": objs, "weights": [rng.randint(1, 16) / 8.0 for _ in range(m)],
            "alternatives": [f"A{i}" for i in range(n)], "criteria": list(crits), "nan": nan, "style": style}
     if rng.random() < 0.3:
@@ -120,8 +124,8 @@ def gen_matrix(rng, crit_pool):
 
 def mk(case):
     mtx = np.array(case["matrix"], dtype=float)
-    for i, j in case["nan"]:
-        mtx[i, j] = np.nan
+    for cell in case["nan"]:
+        mtx[cell[0], cell[1]] = np.inf if len(cell) > 2 else np.nan
     return I.mkdm(mtx, list(case["objectives"]), weights=list(case["weights"]),
                   alternatives=list(case["alternatives"]), criteria=list(case["criteria"]))
 
@@ -160,6 +164,85 @@ def gen_spec(rng, quals):
     return {"kind": "user", "which": rng.choice(["agg", "tf"])}
 
 
+def canary():
+    """A fixed battery of calls made by FRESH objects on FIXED matrices (a finite one, one with an infinite cell, one
+    with a missing cell), plus the process-wide settings of the numeric libraries.  Its outcome can only change when
+    something outside every object has changed: hidden state shared by the whole process."""
+    import pandas as pd
+    import sklearn
+    from skcriteria.agg.similarity import TOPSIS
+    from skcriteria.preprocessing import impute, scalers
+    good = np.array([[1.0, 2.0, 4.0], [2.5, 1.0, 3.0], [4.0, 3.5, 1.0], [3.0, 5.0, 2.0]])
+    inf = good.copy()
+    inf[1, 1] = np.inf
+    nan = good.copy()
+    nan[2, 0] = np.nan
+    outs = []
+    for mtx in (good, inf, nan):
+        dm = I.mkdm(mtx, [max, min, max], weights=[0.5, 0.25, 0.25])
+        # (matrix targets only: the battery itself stays clear of the other code paths, which the sequences and
+        # fresh_probe() exercise between two runs of it)
+        for mkobj in (lambda: scalers.MinMaxScaler("matrix"), lambda: scalers.StandarScaler("matrix"),
+                      lambda: scalers.SumScaler("matrix"), lambda: impute.KNNImputer(), lambda: TOPSIS()):
+            outs.append(describe_out(call(mkobj(), dm)))
+    cfg = sklearn.get_config()
+    outs.append(("settings", sorted((k, repr(v)) for k, v in np.geterr().items()),
+                 sorted((k, repr(v)) for k, v in cfg.items()),
+                 repr(pd.get_option("mode.chained_assignment")), repr(np.get_printoptions().get("precision"))))
+    return outs
+
+
+def fresh_probe():
+    """Run in a NEW interpreter (python -c): the battery, then one call of every catalogued class in each of its
+    targets and of every decision maker on an ordinary matrix, then the battery again.  Prints a JSON verdict."""
+    import json
+    import random
+    import sys
+    rng = random.Random(0)
+    c0 = canary()
+    dm = I.mkdm(np.array([[1.0, 2.0, 4.0], [2.5, 1.0, 3.0], [4.0, 3.5, 1.0], [3.0, 5.0, 2.0]]), [max, min, max],
+                weights=[0.5, 0.25, 0.25], criteria=["C0", "C1", "C2"])
+    done = []
+    for name in T.ALL_CLASSES:
+        for tgt in ("matrix", "weights", "both"):
+            cfg = T.config(rng, name)
+            if "target" in cfg["params"]:
+                cfg["params"]["target"] = tgt
+            elif tgt != "matrix":
+                continue
+            if name in T.FILTERS and name != "FilterNonDominated":
+                cfg["conditions"] = [["C0", "gt2" if name == "Filter" else ([2.5, 4.0] if name in ("FilterIn", "FilterNotIn") else 2.5)]]
+            try:
+                call(T.build(cfg), dm)
+                done.append(name + ":" + tgt)
+            except Exception:  # noqa: BLE001
+                pass
+    for nm in ("wsm", "wpm", "topsis", "ratio", "refpoint", "fmf", "multimoora", "electre1", "electre2", "simus"):
+        d2 = dm if nm not in ("wsm", "wpm") else I.mkdm(dm.matrix.to_numpy(), [max, max, max], weights=[0.5, 0.25, 0.25])
+        call(M.make_direct({"name": nm}), d2)
+        done.append(nm)
+    c1 = canary()
+    diff = [i for i, (a, b) in enumerate(zip(c0, c1)) if a != b]
+    sys.stdout.write("FRESH-PROBE " + json.dumps({"same": c0 == c1, "exercised": len(done), "items": diff,
+                                                  "before": [str(c0[i])[:200] for i in diff[:3]],
+                                                  "after": [str(c1[i])[:200] for i in diff[:3]]}) + "\n")
+
+
+def run_fresh_probe():
+    import json
+    import os
+    import subprocess
+    import sys
+    env = dict(os.environ)
+    p = subprocess.run([sys.executable, "-W", "ignore", "-c", "from harness.props import c20; c20.fresh_probe()"],
+                       capture_output=True, text=True, env=env, timeout=600,
+                       cwd=os.path.dirname(os.path.dirname(os.path.dirname(os.path.abspath(__file__)))))
+    for ln in p.stdout.splitlines():
+        if ln.startswith("FRESH-PROBE "):
+            return json.loads(ln[len("FRESH-PROBE "):])
+    return {"same": None, "error": (p.stderr or p.stdout)[-600:]}
+
+
 def norm_eq(a, b):
     try:
         return bool(a == b) if not isinstance(a, (list, tuple, dict)) else a == b
@@ -174,6 +257,7 @@ def run_seq(case):
         twin = build_obj(case["spec"], case["oseed"])
         if obj is None:
             return {"skip": True}
+        can0 = canary()
         probe = mk(case["probe"])
         ref = describe_out(call(build_obj(case["spec"], case["oseed"]), probe))
         s0 = state_of(obj)
@@ -209,6 +293,12 @@ def run_seq(case):
             if state_of(obj) != s0:
                 problems.append(f"call {k}: the object's __dict__ changed")
                 s0 = state_of(obj)
+        can1 = canary()
+        if can1 != can0:
+            k = [i for i, (a, b) in enumerate(zip(can0, can1)) if a != b][0]
+            problems.append(f"state shared by the whole process changed during this sequence: fresh objects on fixed "
+                            f"matrices answer differently afterwards (battery item {k}: {str(can0[k])[:80]} -> "
+                            f"{str(can1[k])[:80]})")
         return {"problems": problems, "ref_kind": ref[0]}
     except Exception as e:  # noqa: BLE001
         return {"error": repr(e)[:300]}
@@ -232,6 +322,15 @@ def run(ctx):
         seq.append("PROBE")
         cases.append({"spec": spec, "probe": probe, "seq": seq, "oseed": ctx.rng.randrange(10 ** 6),
                       "derive_at": ctx.rng.randrange(len(seq)) if ctx.rng.random() < 0.5 else None})
+    fp = run_fresh_probe()
+    ctx.count("fresh_interpreter_probe:classes_exercised", fp.get("exercised", 0))
+    if fp.get("same") is None:
+        ctx.disagree({"fresh_probe": True}, {"what": "the fresh-interpreter probe could not be run", "detail": fp})
+    elif not fp["same"]:
+        ctx.oracle_fail({"fresh_probe": True},
+                        {"oracle": "state shared by the whole process: in a new interpreter, fresh objects on fixed "
+                                   "matrices answer differently after one call of every catalogued class than before",
+                         "detail": fp})
     outs = I.pmap(run_seq, cases, chunksize=4)
     for c, o in zip(cases, outs):
         name = c["spec"].get("qual", "").split(".")[-1] or c["spec"].get("cfg", {}).get("cls") or c["spec"]["kind"]
@@ -256,6 +355,10 @@ def run(ctx):
 
 
 def replay(ctx, rep):
+    if rep["case"].get("fresh_probe"):
+        fp = run_fresh_probe()
+        print("fresh-interpreter probe:", fp)
+        return 0 if fp.get("same") else 1
     o = run_seq(rep["case"])
     print(o)
     return 1 if o.get("problems") or "error" in o else 0
